@@ -760,6 +760,102 @@ def run_impostor_initiator(conf_name, guess):
     return w, delivered
 
 
+def _sa_props(body):
+    props, off = [], 0
+    while off < len(body):
+        _, _, ln = struct.unpack_from('>BBH', body, off)
+        pb = body[off + 4:off + ln]
+        num, proto, spisz, ntr = struct.unpack_from('>BBBB', pb, 0)
+        trs, o2 = [], 4 + spisz
+        while o2 < len(pb):
+            _, _, l2 = struct.unpack_from('>BBH', pb, o2)
+            trs.append(pb[o2 + 4:o2 + l2])
+            o2 += l2
+        props.append((num, proto, pb[4:4 + spisz], trs))
+        off += ln
+    return props
+
+
+def _sa_body(props):
+    b = b''
+    for i, (num, proto, spi, trs) in enumerate(props):
+        tb = b''
+        for j, t in enumerate(trs):
+            tb += struct.pack('>BBH', 3 if j < len(trs) - 1 else 0, 0, 4 + len(t)) + t
+        pb = struct.pack('>BBBB', num, proto, len(spi), len(trs)) + spi + tb
+        b += struct.pack('>BBH', 2 if i < len(props) - 1 else 0, 0, 4 + len(pb)) + pb
+    return b
+
+
+FOREIGN_INIT_VARIANTS = ('untouched', 'proposals-swapped', 'proposals-swapped-and-renumbered', 'second-proposal-removed',
+                         'first-proposal-removed', 'numbers-exchanged')
+
+
+def run_foreign_initiator(variant):
+    """An honest initiator of another make (it knows A's credentials) offers TWO proposals in IKE_SA_INIT - #1 with AES-256,
+    #2 with AES-128, a responder that accepts both - and somebody on the path rewrites the SA payload of the request.  The
+    initiator signs what it sent, the responder must verify against what it received: only 'untouched' may establish."""
+    import ikesa
+    from ipaddress import ip_address
+    both = {'encr': ['aes256', 'aes128']}
+    confs = S.base_confs(a_over=both, b_over=both)
+    w = S.new_world(confs)
+    w.sent_log = []
+    delivered = []
+    import configuration
+    f_ep = Endpoint('F', [A_ADDR])
+    f_ep.world = w
+
+    def as_f(fn):
+        CTX.world, CTX.ep = w, f_ep
+        try:
+            return fn()
+        finally:
+            CTX.world, CTX.ep = None, None
+    conf = as_f(lambda: configuration.Configuration([ip_address(A_ADDR)], confs['A']))
+    ikeconf = conf.get_ike_configuration(ip_address(A_ADDR), ip_address(B_ADDR))
+    init = as_f(lambda: ikesa.IkeSa(True, b'\0' * 8, ikeconf, ip_address(A_ADDR), ip_address(B_ADDR)))
+    entry = ikeconf.protect[0]
+    msg1 = bytes(as_f(lambda: init.process_acquire(entry.my_ts, entry.peer_ts, entry.index)))
+    pl, h = structured(msg1)
+    i_sa = [i for i, (ty, _) in enumerate(pl) if ty == 33][0]
+    (num, proto, spi, trs), = _sa_props(pl[i_sa][1])
+    encr = [t for t in trs if t[0] == 1]
+    rest = [t for t in trs if t[0] != 1]
+    if len(encr) != 2:
+        raise HarnessError('expected two ENCR transforms in the offer, have %d' % len(encr))
+    p1, p2 = (1, proto, spi, [encr[0]] + rest), (2, proto, spi, [encr[1]] + rest)
+
+    def with_sa(props):
+        q = list(pl)
+        q[i_sa] = (33, _sa_body(props))
+        return rebuild(h, q)
+    sent = with_sa([p1, p2])
+    init.ike_sa_init_req_data = sent            # what this initiator sent, and signs
+    on_wire = {'untouched': [p1, p2], 'proposals-swapped': [p2, p1],
+               'proposals-swapped-and-renumbered': [(1,) + p2[1:], (2,) + p1[1:]],
+               'second-proposal-removed': [p1], 'first-proposal-removed': [p2],
+               'numbers-exchanged': [(2,) + p1[1:], (1,) + p2[1:]]}[variant]
+    data = with_sa(on_wire)
+    delivered.append(('B', data))
+    w.step(('inject', 'B', data, A_ADDR))
+    if not w.net:
+        return w, delivered, 'no-answer'
+    msg2 = w.net[0]
+    w.step(('drop', msg2.id))
+    as_f(lambda: init.process_message(msg2.data))
+    if init.state != ikesa.IkeSa.State.AUTH_REQ_SENT:
+        return w, delivered, 'initiator-stopped:%s' % init.state.name
+    out3 = bytes(as_f(lambda: init.request.to_bytes()))
+    delivered.append(('B', out3))
+    w.step(('inject', 'B', out3, A_ADDR))
+    answer = w.net[0].data if w.net else None
+    w.net[:] = []
+    if answer is not None:
+        as_f(lambda: init.process_message(answer))
+    return w, delivered, init.state.name
+
+
 def run_mitm(variant):
     """Mallory runs IKE_SA_INIT with both sides (own DH, own nonces) and then tries to get through IKE_AUTH without a
     credential, using two real IkeSa objects as her protocol engine."""
@@ -918,6 +1014,25 @@ def work(case):
             _, conf, guess = case[1].split('|')
             w, delivered = run_impostor_initiator(conf, bytes.fromhex(guess))
             confs = confs_named(conf)
+        elif case[1].startswith('foreign-initiator:'):
+            variant = case[1].split(':')[1]
+            w, delivered, end = run_foreign_initiator(variant)
+            b = w.endpoints['B']
+            res = []
+            est_b = bool(established_sas(b))
+            if not b.alive:
+                res.append(('daemon-died', 'B died: %r' % (b.dead_reason[:2],)))
+            elif variant == 'untouched':
+                if not est_b or end != 'ESTABLISHED' or not b.kernel.sad:
+                    res.append(('honest-handshake-fails:two-proposals', 'an initiator that offers two acceptable IKE proposals '
+                                'and is not tampered with ends %s, responder established: %s, SAs in its kernel: %d' % (
+                                    end, est_b, len(b.kernel.sad))))
+            elif est_b or b.kernel.sad:
+                res.append(('established-despite-rewritten-init:%s' % variant, 'the SA payload of the IKE_SA_INIT request was '
+                            'rewritten on the path (%s): the initiator signed what it sent, the responder accepted the AUTH '
+                            'payload all the same (IKE_SA established: %s, SAs in its kernel: %d, initiator ends %s)' % (
+                                variant, est_b, len(b.kernel.sad), end)))
+            return res, (end == 'ESTABLISHED', est_b), (True, b.alive), world_digest(w)
         else:
             w, delivered = run_mitm(case[1])
             confs = confs_named('psk')
@@ -971,6 +1086,7 @@ def main():
     cases += [('mitm', 'impostor-initiator|%s|%s' % (c, g.hex())) for c in ('psk', 'rsa', 'mm:b-has-pubkey-and-psk-a-sends-psk-wrong')
               for g in (b'', b'testing2', b'alice@openikev2', b'testing-not', b'skip-auth')]
     cases += [('mitm', 'impostor-initiator|%s|%s' % (c, b'replay-recorded-auth'.hex())) for c in ('psk', 'rsa')]
+    cases += [('mitm', 'foreign-initiator:%s' % v) for v in FOREIGN_INIT_VARIANTS]
     outcomes = collections.Counter()
     n_est = 0
     results = ck.pmap(work, cases)
